@@ -90,10 +90,11 @@ type World struct {
 	Transcript []string
 
 	// backup state (C20)
-	BkDir   string // directory of the last backup
-	BkClean bool   // no delete since the last backup into BkDir
-	bkN     int
-	bkDirs  []string
+	BkDir    string // directory of the last backup
+	BkClean  bool   // no delete since the last backup into BkDir
+	bkN      int
+	bkDirs   []string
+	bkDigest map[string]string // backup directory -> content digest when it was last written
 
 	sinceOpen int
 	inApply   int
